@@ -254,6 +254,27 @@ Definition spec_present (data : bytes) : option parsed :=
       else None
   end.
 
+(** ---- the grammar of the line, for the theorem [present_line_spec] ----
+    A line is [!> ] followed by words joined by single spaces and ended by LF or CRLF; an empty
+    word stands for one more space, so every run of spaces is covered; [&>] is an ordinary word
+    of the list.  Words contain no space, CR or LF and are UTF-8. *)
+Definition word_ok (w : bytes) : bool := forallb (fun c => negb (is_sep c)) w && utf8_valid w.
+Fixpoint render_words (ws : list bytes) : bytes :=
+  match ws with
+  | [] => []
+  | [w] => w
+  | w :: r => w ++ SPACE :: render_words r
+  end.
+Definition line_end (crlf : bool) : bytes := if crlf then [CR; LF] else [LF].
+Definition render_line (ws : list bytes) (crlf : bool) : bytes :=
+  PRESENT_INTERNAL_PREFIX ++ render_words ws ++ line_end crlf.
+Definition nonempty_words (ws : list bytes) : list bytes :=
+  filter (fun w => match w with [] => false | _ => true end) ws.
+(** the second conjunct: the line does not begin [!>  &> ] (then the parser returns [None]) *)
+Definition line_words_ok (ws : list bytes) : Prop :=
+  Forall (fun w => word_ok w = true) ws /\
+  starts_with PRESENT_INTERNAL_AND (render_words ws ++ [LF]) = false.
+
 (** ---- xval interface ---- *)
 Definition x_pentry (e : entry) : xval := XL [XB (fst e); x_list XB (snd e)].
 Definition x_parsed (p : parsed) : xval :=
